@@ -12,3 +12,5 @@ INVARIANT InterleaveNeutral
 INVARIANT OddWsRejected
 CONSTANT Thorough = FALSE
 INVARIANT ExtMinimal
+INVARIANT KwExact
+INVARIANT ArgUnderMinimal
